@@ -114,3 +114,29 @@ Definition eLeaf := Leaf ZK.
 Definition lF := LF ZK.
 Definition lI := LI ZK.
 Definition lB := LB ZK.
+
+(* ------------------------------------------------------------------------------------------ *)
+(* functions/_matmul.py, Matmul.backward: the right-hand-side gradient.  The observation is what torch.autograd.grad
+   delivers for rhs (i.e. after autograd's own reduction of an expanded gradient to the shape of rhs), so the model's
+   result is reduced with sum_to before the comparison (the identity when the shapes already agree). *)
+Record bcase := mkBCase {
+  b_e : OpExpr ZK; b_rhs : tensor ZK; b_G : tensor ZK; b_obs : list nat * list Z }.
+
+Definition bcheck_with (fx : fixes) (c : bcase) : nat :=
+  match fst (matmul_backward ZK fx (b_e c) (b_rhs c) (b_G c) false true) with
+  | Some g =>
+      let r := sum_to ZK g (tshape ZK (b_rhs c)) in
+      if negb (list_nat_eqb (tshape ZK r) (fst (b_obs c))) then 3
+      else if list_Z_eqb (to_flat ZK r) (snd (b_obs c)) then 0 else 4
+  | None => 5
+  end.
+
+Definition bcheck_case (c : bcase) : nat :=
+  let r0 := bcheck_with pinned c in
+  if r0 =? 0 then 0 else if existsb (fun fx => bcheck_with fx c =? 0) all_fixes then 0 else r0.
+
+Fixpoint bad_bcases (cs : list bcase) (i : nat) : list nat :=
+  match cs with
+  | [] => []
+  | c :: r => match bcheck_case c with 0 => bad_bcases r (S i) | code => (i * 10 + code) :: bad_bcases r (S i) end
+  end.
